@@ -28,6 +28,7 @@ pub const ZINC_HAND: &[&str] = &[
     "8e400°F",
     "1937-06-05T09:56:09+00:20 Amsterdam",
     "0021-06-05T09:56:09-07:53 Los_Angeles",
+    "9999-12-31T05:15:46-11:00 Apia",
     "2021-06-07T00:00:00.000001Z",
     "`http://h/p?q=1#f`",
     "`a\\:b\\/c\\`d`",
@@ -74,6 +75,7 @@ pub const JSON_HAND: &[&str] = &[
     "[[],{},[[]],[{}]]",
     "{\"_kind\":\"dateTime\",\"val\":\"0021-06-05T09:56:09-07:53\",\"tz\":\"Los_Angeles\"}",
     "{\"_kind\":\"dateTime\",\"val\":\"1937-06-05T09:56:09+00:20\",\"tz\":\"Amsterdam\"}",
+    "{\"_kind\":\"dateTime\",\"val\":\"9999-12-31T05:15:46-11:00\",\"tz\":\"Apia\"}",
     "{\"_kind\":\"marker\"}",
     "{\"_kind\":\"na\"}",
     "{\"_kind\":\"remove\"}",
